@@ -51,6 +51,8 @@ def make_file(rng, k, allow_fatal, big, no_warn=False):
     if no_warn:
         # the manual does not say whether -w also silences the WARNING pseudo-op: not generated
         kinds = [x for x in kinds if x != 'warn'] or ['unk']
+    elif not big and rng.random() < 0.2:
+        kinds = ['warn']            # a file that only draws warnings (no error): it still has messages, logs and a summary of its own
     nclean = rng.randrange(0, 12) if not big else 2
     slots = ['c'] * nclean + ['f'] * k
     if not big:
@@ -264,6 +266,19 @@ def run_case(case, ctx):
             else:
                 n_e += 1
     out.obs['diagnostic_lines_seen'] += n_e + n_w
+    if chan == 'perfile' and not conlist:
+        # every source has its own log: a message belongs into the log of the file that raised it
+        for i, (name, ev, k) in enumerate(files):
+            if i >= len(per_file):
+                break
+            own = (ctx.read(name[:-4] + '.log') or b'').decode('latin-1')
+            rx = GNU_RE if gnu else NATIVE_RE
+            n_own = sum(1 for _ in rx.finditer(own))
+            n_ev = len(per_file[i]['D'])
+            if n_own != n_ev:
+                out.violate('per-file-log-vs-events', '%s: %s holds %d messages, %s raised %d' % (tag, name[:-4] + '.log', n_own, name, n_ev))
+                break
+            out.obs['per_file_logs_checked'] += 1
     d_all_e = sum(1 for pf in per_file for d in pf['D'] if d['class'] in ('E', 'F'))
     d_all_w = sum(1 for pf in per_file for d in pf['D'] if d['class'] == 'W')
     out.obs['diagnostic_events_seen'] += d_all_e + d_all_w
